@@ -6,6 +6,7 @@ import (
 	"strings"
 	"sync"
 	"time"
+	"verif/cmdmodel"
 
 	"verif/drive"
 	"verif/findings"
@@ -126,7 +127,47 @@ type c08Cell struct {
 	derivedFrom     []string
 }
 
+// c08JudgeBatch: the literal cell on the Batch target, executed under the cmd.exe model (parse-time %,
+// run-time !, ^ escapes, quotes); paths that need external programs (files) are unmodelled and skipped.
+func c08JudgeBatch(c c08Cell) (sym, detail string, replay func() findings.Replay, skipped bool) {
+	src, _, pre, wantOut, _, ok := c08Program(c.v, c.path, "literal")
+	if !ok || len(pre) > 0 {
+		return "", "", nil, true
+	}
+	tr := drive.TranspileSrc(src, drive.Batch)
+	mk := func(script, out, errs string) func() findings.Replay {
+		return func() findings.Replay {
+			return findings.Replay{Files: map[string]string{"src/main.tsh": src, "expected.txt": wantOut + "exit=0\n", "actual.txt": out + "\n--error--\n" + errs, "script.bat": script,
+				"detail.txt": fmt.Sprintf("value=%q path=%s origin=literal target=batch\n", c.v, c.path)}, Script: repoTshReplay("batch")}
+		}
+	}
+	if tr.Panic != "" {
+		return "transpiler-panic", firstLine(tr.Panic), mk("", "", tr.Panic), false
+	}
+	if !tr.OK() {
+		return "rejected", tr.Err, mk("", "", tr.Err), false
+	}
+	res := cmdmodel.Run(tr.Script, cmdmodel.Options{MaxSteps: 400000, Files: map[string]string{}})
+	if res.Unmodelled != "" {
+		return "", "", nil, true
+	}
+	out := strings.ReplaceAll(res.Stdout, "\r\n", "\n")
+	rp := mk(tr.Script, out, res.Error)
+	switch {
+	case res.Error != "":
+		return "script-error", res.Error, rp, false
+	case out != wantOut:
+		return "output-diff", diffHint(wantOut, out), rp, false
+	case res.Exit != 0:
+		return "exit", fmt.Sprint(res.Exit), rp, false
+	}
+	return "", "", nil, false
+}
+
 func c08Judge(c c08Cell) (sym, detail string, replay func() findings.Replay, skipped bool) {
+	if c.origin == "literal@batch" {
+		return c08JudgeBatch(c)
+	}
 	src, stdin, pre, wantOut, wantFiles, ok := c08Program(c.v, c.path, c.origin)
 	if !ok {
 		return "", "", nil, true
@@ -248,8 +289,9 @@ func C08() int {
 	}
 	chars = append(chars, '\n', '\t')
 	var cells []c08Cell
+	originsT := append(append([]string{}, c08Origins...), "literal@batch")
 	for _, p := range c08Paths {
-		for _, o := range c08Origins {
+		for _, o := range originsT {
 			for _, pos := range c08Positions {
 				for _, c := range chars {
 					prefix := fmt.Sprintf("path=%s origin=%s pos=%s", p, o, pos)
@@ -263,7 +305,7 @@ func C08() int {
 	// multi-character hazards on every path and origin
 	hazards := []string{"$(touch CANARY)", "`touch CANARY`", "$HOME", "${HOME}", "*", "-n", "-e", "-E x", "a  b", " lead", "trail ", "\"; touch CANARY; \"", "'; touch CANARY; '", "$((1+1))", "a\\nb", "\\", "%s", "!!", "~", "a;touch CANARY", "a|cat", "a&", "> CANARY", "{a,b}", "[a-c]", "?", "#x", "x #y", "$1", "$?", "$_", "\\$(touch CANARY)"}
 	for _, p := range c08Paths {
-		for _, o := range c08Origins {
+		for _, o := range originsT {
 			for hi, h := range hazards {
 				prefix := fmt.Sprintf("path=%s origin=%s hazards", p, o)
 				member := fmt.Sprintf("h%d", hi)
@@ -383,7 +425,7 @@ func C08() int {
 	r.Set("evaluations", done)
 	r.Set("distinct_nontrivial", distinct.Len())
 	r.Set("exhaustive", !capped)
-	r.Set("rule", "cell table: every printable ASCII character plus \\n and \\t (97) x position {only, first, middle, last} x 12 data paths x 4 origins (literal, read from file, standard input, command output), one program per cell, observed by framed prints and by listing/reading the sandbox afterwards (no file may appear that the program did not write; written files must hold the exact bytes); plus a list of multi-character hazards on every path/origin and all strings of length 2 over the alphabet on the three most exposed paths (replaces the property's random strings: sampling is outside this technique). Distinct by (value, path, origin).")
+	r.Set("rule", "cell table: every printable ASCII character plus \\n and \\t (97) x position {only, first, middle, last} x 13 data paths x 5 origins on Bash (literal, read from file, standard input, command output, standard input read inside a function) plus the literal origin on the Batch target under the cmd.exe model (runs the model does not decide are skipped and counted), one program per cell, observed by framed prints and by listing/reading the sandbox afterwards (no file may appear that the program did not write; written files must hold the exact bytes); plus a list of multi-character hazards on every path/origin and all strings of length 2 over the alphabet on the three most exposed paths (replaces the property's random strings: sampling is outside this technique). Distinct by (value, path, origin).")
 	r.Assumef("known findings are listed per (path, origin, position) with the exact set of failing characters; a failing 2-character string is attributed to a listed single-character cell of one of its characters, anything else is a violation")
 	return r.Finish()
 }
